@@ -327,7 +327,7 @@ def h_handlers_typed(ch: Chooser, vec: list, maxf: int):
 def run(tier: str, seed: int) -> int:
     t0 = time.time()
     th = tier == "thorough"
-    maxf, dm, dv = (3, 4, 2) if th else (2, 3, 1)
+    maxf, dm, dv = (3, 3, 2) if th else (2, 3, 1)
     vecs = G.enumerate_models(dm, maxf)
     tasks = []
     for v in vecs:
